@@ -3,7 +3,9 @@
 Obligations : coq/Props/C12.v (parameters() = first-occurrence dedupe of the pre-order traversal, exactly the reachable
               parameters; num_params sums and split; train/eval reach exactly the reachable modules; zero_grad/freeze/
               unfreeze act on exactly parameters(); __setattr__ replace semantics; Sequential order; model State/Modules.v)
-Ties        : K  exhaustive event sequences (3 modules, 2 parameters, reduced alphabets) on real nn.Module objects vs the model
+Ties        : T  lib/py2coq/gen_sigs.py regenerates Gen/GenModuleSigs.v (public signatures, state attributes of Module) — obligation
+                 modules_signatures_documented; self-check against inspect.signature
+              K  exhaustive event sequences (3 modules, 2 parameters, reduced alphabets) on real nn.Module objects vs the model
               K  random longer event sequences (more modules/parameters, Sequential positional / OrderedDict, register_*,
                  malformed register calls that must raise) vs the model
               K  Sequential.forward call order/values with recording modules vs the model
@@ -55,6 +57,8 @@ def ev_coq(e):
         return "NewSequential %s" % clist([str(i) for i in e[1]])
     if t == "NewSequentialDict":
         return "NewSequentialDict %s" % clist(["(%s, %d)" % (cstr(k), i) for k, i in e[1]])
+    if t == "SetReq":
+        return "SetReq %d %s" % (e[1], cb(e[2]))
     return "%s %d" % (t, e[1])
 
 
@@ -124,6 +128,8 @@ class World:
         elif t == "SetGrad":
             p = self.pars[e[1]]
             p._grad = np.full(p.data.shape, 7.0, dtype=np.float32)
+        elif t == "SetReq":
+            self.pars[e[1]].requires_grad = e[2]
         else:
             raise AssertionError(t)
 
@@ -281,6 +287,15 @@ def judge_event(before, e, after, world):
         real = getattr(world.mods[m], k, "missing")
         if real is not world.value(v):
             return "m%d.%s does not return the assigned value" % (m, k)
+    if t in ("SetReq", "SetGrad"):
+        for p in range(len(before["pars"])):
+            want = before["pars"][p]
+            if p == e[1]:
+                want = dict(want, req=e[2]) if t == "SetReq" else dict(want, grad="GVal")
+            if after["pars"][p] != want:
+                return "%s: parameter %d is %s, expected %s" % (ev_coq(e), p, after["pars"][p], want)
+        if before["mods"] != after["mods"]:
+            return "%s changed a module" % ev_coq(e)
     if t in ("NewSequential", "NewSequentialDict"):
         items = [(str(i), c) for i, c in enumerate(e[1])] if t == "NewSequential" else list(e[1])
         new = after["mods"][-1]
@@ -399,6 +414,11 @@ SCENARIOS = [
                           ("SetAttr", 2, "a", P(0)), ("SetAttr", 1, "b", P(1)), ("SetAttr", 0, "c", P(0))], [
         ("Eval", 1), ("Train", 2), ("Eval", 0), ("Freeze", 1), ("Unfreeze", 2), ("ZeroGrad", 0), ("SetGrad", 0), ("SetGrad", 1),
         ("SetAttr", 0, "b", O(1))]),
+    # freeze / unfreeze histories: root m0 (own p1) -> child m1 (p0); m2 (p2) attached later; manual requires_grad flips
+    ("freeze", [("NewModule",), ("NewModule",), ("NewModule",), ("NewParam", 3, True), ("NewParam", 2, True), ("NewParam", 1, True),
+                ("SetAttr", 0, "w", P(1)), ("SetAttr", 0, "a", M(1)), ("SetAttr", 1, "w", P(0)), ("SetAttr", 2, "w", P(2))], [
+        ("Freeze", 0), ("Freeze", 1), ("Freeze", 2), ("Unfreeze", 0), ("Unfreeze", 1), ("SetReq", 0, False),
+        ("SetAttr", 0, "b", M(2)), ("SetAttr", 0, "a", O(0))]),
 ]
 
 
@@ -438,7 +458,7 @@ def part_exhaustive(ctx):
                     "observation": recs[len(recs) // 2]["obs"]})
         mism = compare(ctx, "ex_" + name, prelude, recs)
         ctx.tie("modules/exhaustive-%s" % name, "correspondence", len(recs), nontrivial, mism, exhaustive=True,
-                note="3 modules x 2 parameters, every acyclic word of length <= %d over the %d-letter alphabet %s; full observation "
+                note="3 modules x 2-3 parameters, every acyclic word of length <= %d over the %d-letter alphabet %s; full observation "
                      "(parameters(), submodules(), training, registry names, num_params x3, requires_grad / grad state of every parameter)"
                      % (max_len, len(alphabet), [ev_coq(e) for e in alphabet]))
     return oracle_fail
@@ -480,8 +500,10 @@ def random_sequence(rng, length, malformed):
             ks = rng.sample(NAMES, rng.randint(1, 3))
             e = ("NewSequentialDict", [(k, rng.randrange(nm)) for k in ks])
         elif c < 0.97:
-            t = rng.choice(["Train", "Eval", "ZeroGrad", "Freeze", "Unfreeze", "SetGrad"])
-            e = (t, rng.randrange(np_ if t == "SetGrad" else nm))
+            t = rng.choice(["Train", "Eval", "ZeroGrad", "Freeze", "Unfreeze", "Freeze", "Unfreeze", "SetGrad", "SetReq"])
+            e = (t, rng.randrange(np_ if t in ("SetGrad", "SetReq") else nm))
+            if t == "SetReq":
+                e = e + (rng.random() < 0.5,)
         else:
             if not malformed:
                 continue
@@ -576,7 +598,26 @@ def part_forward(ctx):
 
 
 # ------------------------------------------------------------------ the check
+def part_signatures(ctx):
+    """T: regenerate Gen/GenModuleSigs.v (signatures + state attributes of modules.py) and self-check it against inspect"""
+    import sys
+    from lib.py2coq import gen_sigs
+    _impl()
+    try:
+        G = gen_sigs.generate_modules()
+    except Exception as ex:
+        common.write_if_changed(gen_sigs.OUT_MODULES, gen_sigs.refusal("modules", gen_sigs.MODULES, str(ex)))
+        ctx.tie("translator/modules signatures+state", "translator", 1, 0, [{"untranslatable": str(ex)}],
+                note="the fail-closed signature/state census does not accept the current sources")
+        return
+    n, mism = gen_sigs.selfcheck(G, sys.modules["synapgrad.nn.modules"])
+    ctx.tie("translator/modules signatures+state", "translator", n, n, mism, exhaustive=True,
+            note="every function/method of modules.py: parameter names, order, kinds, defaults vs inspect.signature; nothing defined in the module is missing; "
+                 "state attributes written by each class: %s" % G["state"])
+
+
 def run(ctx):
+    part_signatures(ctx)
     ctx.build_props(extra_targets=["State/Modules.vo"])
     fails = []
     fails += part_exhaustive(ctx)
